@@ -282,7 +282,7 @@ impl<T: Clone, N, S: Storage<T, N>> Cluster<T, N, S> {
 
         match (&self.state, &request.data, &response.result) {
             (Election, PreVote, OK) => Ok(self.pre_vote_received(request)),
-            (Candidate, Vote, OK) => Ok(self.vote_received(request)),
+            (Candidate, Vote, OK) if request.term == self.term => Ok(self.vote_received(request)),
             (Leader, Heartbeat | Append(_), OK) => self.commit(request).await,
             (Leader, Heartbeat | Append(_), LogMismatch(mismatch)) => {
                 self.reconcile(request, mismatch).await
